@@ -579,6 +579,94 @@ def viewport_clip_corr(ctx, binp, rng, quick):
                            replay="rvh dump with this doc; first clipped group's clip path rectangle and the probe's abs transform"))
 
 
+
+# ---------------------------------------------------------------------------------------------------------------
+# round 4, 2nd pass: <image> bounding box and slice clip against Gen/LeafImage.v (image.rs convert_inner) and the spec
+# ---------------------------------------------------------------------------------------------------------------
+IMG_COQ_PRELUDE = """Local Open Scope Q_scope.
+Definition rect_close (a b : qrect) : bool :=
+  Qclose (1 # 5000) (rx a) (rx b) && Qclose (1 # 5000) (ry a) (ry b) && Qclose (1 # 5000) (rw a) (rw b) && Qclose (1 # 5000) (rh a) (rh b).
+"""
+IMG_COQ_CHK_MODEL = """Definition chk (p : qsize * qrect * aspect * qrect * option qrect) : bool :=
+  let '(actual, rect, a, ob, oc) := p in
+  opt_eqb rect_close (image_bbox_gen actual rect a ts_identity) (Some ob) && opt_eqb rect_close (image_clip_gen actual rect a) oc.
+"""
+# the rule itself: the box of the picture is the image of the (0, 0, natural size) viewBox under the preserveAspectRatio mapping
+# onto the element rectangle (so it starts at the ALIGNED position); slice clips by the element rectangle
+IMG_COQ_CHK_SPEC = """Definition chk (p : qsize * qrect * aspect * qrect * option qrect) : bool :=
+  let '(actual, rect, a, ob, oc) := p in
+  let r := {| rx := 0; ry := 0; rw := sw actual; rh := sh actual |} in
+  let T := to_transform {| vb_rect := r; vb_aspect := a |} (r_size rect) in
+  Qclose (1 # 5000) (rx ob) (rx rect + img_lo_x T r) && Qclose (1 # 5000) (rx ob + rw ob) (rx rect + img_hi_x T r) &&
+  Qclose (1 # 5000) (ry ob) (ry rect + img_lo_y T r) && Qclose (1 # 5000) (ry ob + rh ob) (ry rect + img_hi_y T r) &&
+  opt_eqb rect_close (if ar_slice a then Some rect else None) oc.
+"""
+
+
+def image_box_corr(ctx, cases, docs, outs):
+    items, idx = [], []
+    for i, (c, o) in enumerate(zip(cases, outs)):
+        if c['kind'] not in ('image', 'image-dpi'):
+            continue
+        try:
+            tree = json.loads(o)
+        except (TypeError, ValueError):
+            continue
+        if 'root' not in tree:
+            continue
+        ims, clips = [], []
+
+        def visit(n):
+            if n.get('t') == 'image':
+                ims.append(n)
+            if n.get('t') == 'g' and n.get('clip'):
+                ch = n['clip']['root'].get('children', [])
+                if ch and ch[0].get('bbox'):
+                    clips.append(ch[0]['bbox'])
+        walk(tree['root'], visit)
+        if not ims or not ims[0].get('abs_bbox'):
+            continue
+        aw, ah = (c['vb'][2], c['vb'][3]) if c['kind'] == 'image' else (c['A'], c['B'])
+        ob = ims[0]['abs_bbox']
+        oc = clips[0] if clips else None
+        items.append("({| sw := %s; sh := %s |}, {| rx := %s; ry := %s; rw := %s; rh := %s |}, {| ar_align := %s; ar_slice := %s |}, "
+                     "{| rx := %s; ry := %s; rw := %s; rh := %s |}, %s)"
+                     % (qstr(aw), qstr(ah), qstr(c['X']), qstr(c['Y']), qstr(c['W']), qstr(c['H']), COQ_ALIGN[c['align']],
+                        'true' if c['slice'] else 'false', qstr(ob[0]), qstr(ob[1]), qstr(ob[2]), qstr(ob[3]),
+                        'None' if oc is None else "(Some {| rx := %s; ry := %s; rw := %s; rh := %s |})" % tuple(qstr(v) for v in oc)))
+        idx.append((i, ob, oc))
+        ctx.note_case("imgbox/" + docs[i], nontrivial=oc is not None)
+    ctx.cov['image_box_cases'] = len(items)
+    if not items:
+        return
+    cases_s = ("Definition cases : list (qsize * qrect * aspect * qrect * option qrect) := [\n%s\n].\n"
+               "Eval vm_compute in (bad_indices chk cases).\n" % ";\n".join(items))
+    base = ['Model.Base', 'Model.GeomPrims', 'Model.ViewBoxSpec', 'Model.Corr', 'Gen.LeafViewBox']
+    rc, out = ctx.coq_eval('s_image_box', IMG_COQ_PRELUDE + IMG_COQ_CHK_SPEC + cases_s, base)
+    sbad = ctx.parse_N_list(out) if rc == 0 else None
+    if sbad is None:
+        ctx.log("image-box spec evaluation failed:\n" + out[-1500:])
+    for b in (sbad or [])[:3]:
+        i, ob, oc = idx[b]
+        ctx.violation("<image> box / slice clip does not follow preserveAspectRatio=%s: the picture's bounding box must be the natural-size "
+                      "viewBox mapped onto x/y/width/height (aligned position), slice clips by that rectangle" % par(cases[i]),
+                      dict(doc=docs[i], impl_image_abs_bbox=ob, impl_clip_rect=oc, case=str(cases[i]),
+                           replay="rvh dump with this doc; image node abs_bbox and the clip path rectangle of its group"))
+    rc, out = ctx.coq_eval('k_image_box', IMG_COQ_PRELUDE + IMG_COQ_CHK_MODEL + cases_s,
+                           base + ['Gen.Units', 'Model.SvgSize', 'Gen.PctAxis', 'Model.ViewportPrims', 'Gen.LeafImage'])
+    badl = ctx.parse_N_list(out) if rc == 0 else None
+    if badl is None:
+        ctx.log("image-box model evaluation failed:\n" + out[-1500:])
+        if not ctx.cov.get('image_tie_broken') and not sbad:
+            ctx.violation("image-box: the source-derived model (Gen/LeafImage.v) could not be evaluated", dict(log_tail=out[-1500:]),
+                          found_input=False)
+        return
+    for b in badl[:3]:
+        i, ob, oc = idx[b]
+        ctx.violation("source-derived image placement (image.rs convert_inner) and implementation disagree on the image box or slice clip (%s)"
+                      % par(cases[i]), dict(doc=docs[i], impl_image_abs_bbox=ob, impl_clip_rect=oc, case=str(cases[i])))
+
+
 def run(ctx):
     rng = ctx.rng
     quick = ctx.tier == 'quick'
@@ -670,6 +758,8 @@ def run(ctx):
     # ------------------------------------------------------------------ K2: nested viewport clip + transform (round 4)
     ctx.cov['viewport_tie_broken'] = bool([b for b in broken if b['name'] in ('use_node.viewport', 'units.pct_axis')])
     viewport_clip_corr(ctx, binp, rng, quick)
+    ctx.cov['image_tie_broken'] = bool([b for b in broken if b['name'] == 'image.placement'])
+    image_box_corr(ctx, cases, docs, outs)
 
     # ------------------------------------------------------------------ model-level search when a proof broke
     if not proof_ok:
